@@ -102,6 +102,16 @@ func c19GenConfig(t *verifrt.Tape, sc *c19Scenario, writer string) *Config {
 		"SecAuditLogFormat "+sc.Format,
 		"SecAuditLogRelevantStatus \""+sc.Pattern+"\"",
 	)
+	if writer == "verifrec" && t.Draw(4) == 0 {
+		// a writer registered through the plugin API needs no SecAuditLog target
+		var kept []string
+		for _, l := range cfg.Lines {
+			if !strings.HasPrefix(l, "SecAuditLog "+simos.Root) {
+				kept = append(kept, l)
+			}
+		}
+		cfg.Lines = kept
+	}
 	// audit-engine switches by ctl, keyed on a token so that only some transactions take them
 	if t.Draw(3) == 0 {
 		cfg.Rules = append(cfg.Rules, RuleSpec{ID: 190, Phase: []int{1, 2, 5, 5}[t.Draw(4)], Targets: []TargetSpec{{Var: "REQUEST_URI"}}, Op: "@contains tok1",
